@@ -108,6 +108,10 @@ class SequenceDataSource(types.Recoverable, Iterable[_T]):
     return self.iterate()
 
 
+# Marks a record that was skipped because reading it raised.
+_SKIPPED = object()
+
+
 class SequenceIterator(types.Recoverable, Iterator[_T]):
   """A sharded data source for chainables."""
 
@@ -116,8 +120,10 @@ class SequenceIterator(types.Recoverable, Iterator[_T]):
 
   def __init__(self, config: SequenceDataSource):
     self._index = config.start
-    iter_ = iter_utils.iter_ignore_error if config.ignore_error else iter
-    self._it = iter_(config.data[config.start : config.end])
+    self._it = iter(config.data[config.start : config.end])
+    if config.ignore_error:
+      # A skipped record still occupies an index, report it to `__next__`.
+      self._it = iter_utils.iter_ignore_error(self._it, error_return=_SKIPPED)
     self.config = config
 
   def from_state(self, shard_state: ShardConfig) -> Self:
@@ -131,7 +137,8 @@ class SequenceIterator(types.Recoverable, Iterator[_T]):
 
   def __next__(self) -> _T:
     """Iterates the data source given a shard index."""
-    result = next(self._it)
+    while (result := next(self._it)) is _SKIPPED:
+      self._index += 1
     self._index += 1
     return result
 
